@@ -13,13 +13,13 @@ StepOfF(h, f) ==
     [] h.a = "deinit" -> <<[op |-> "deinit", act |-> h]>>
     [] h.a = "settrust" -> <<[op |-> "settrust", ctx |-> h.c, on |-> h.on, act |-> h]>>
     [] h.a = "clone" -> <<[op |-> "clone", ctx |-> h.c, from |-> h.from, act |-> h]>>
-    [] h.a = "import" -> <<[op |-> "exec", ctx |-> h.c, text |-> "import " \o h.m \o ";", act |-> h], [op |-> "dump", ctx |-> h.c]>>
+    [] h.a = "import" -> <<[op |-> "exec", ctx |-> h.c, capi |-> TRUE, text |-> "import " \o h.m \o ";", act |-> h], [op |-> "dump", ctx |-> h.c]>>
     [] h.a = "importpath" -> <<[op |-> "exec", ctx |-> h.c, text |-> PathText(h.m, f), act |-> h], [op |-> "dump", ctx |-> h.c]>>
     [] h.a = "include" -> <<[op |-> "exec", ctx |-> h.c, text |-> "include \"@INC@\";", act |-> h], [op |-> "dump", ctx |-> h.c]>>
     [] h.a = "decl" -> <<[op |-> "exec", ctx |-> h.c, text |-> "D" \o h.m \o ":" \o h.m \o ";", act |-> h], [op |-> "dump", ctx |-> h.c]>>
     [] h.a = "ctor" ->
          IF h.where = "top"
-         THEN <<[op |-> "exec", ctx |-> h.c, text |-> "O" \o h.m \o " = " \o CtorText(h.m, h.form) \o ";", act |-> h], [op |-> "dump", ctx |-> h.c]>>
+         THEN <<[op |-> "exec", ctx |-> h.c, capi |-> TRUE, text |-> "O" \o h.m \o " = " \o CtorText(h.m, h.form) \o ";", act |-> h], [op |-> "dump", ctx |-> h.c]>>
          ELSE <<[op |-> "exec", ctx |-> h.c, text |-> "function MK" \o h.m \o "() return object is begin return " \o CtorText(h.m, h.form) \o "; end;\nP" \o h.m \o " = MK" \o h.m \o "();", act |-> h],
                 [op |-> "dump", ctx |-> h.c]>>
 RECURSIVE StepsOf(_, _)
